@@ -60,8 +60,10 @@ def run(tier: str) -> Run:
         specs = specs_for(fi)
         outs = run_kernel(repo, fi, specs)
         rets = returns(outs)
-        if len(rets) != 1:
-            raise AnalysisError(f'{fi.fq}: expected one path, got {len(outs)}')
+        if len(rets) != 1 or len(outs) != 1:
+            r1.fail(name, loc(fi), {'problem': 'the kernel branches on its inputs or refuses some of them',
+                                    'paths': [(o.kind, o.exc_type, o.where) for o in outs][:6]}, key=name)
+            continue
         out = rets[0]
         t = term_of(out.value, fi)
         parts = where_parts(t, fi)
